@@ -101,3 +101,6 @@ void h_push0_cancel(void)
 void h_push0_sock_close(void) { VP_HAVOC_GHOSTS(); vp_mk_push(nondet_size_t()); push0_sock_close(g_s); VP_CANARY(); }
 void h_push0_sock_recv(void) { nni_aio *aio; VP_HAVOC_GHOSTS(); vp_mk_push(nondet_size_t()); push0_sock_recv(g_s, aio); VP_CANARY(); }
 void h_push0_set_send_buf_len(void) { const void *buf; size_t sz; nni_type t; VP_HAVOC_GHOSTS(); vp_mk_push(nondet_size_t()); (void) push0_set_send_buf_len(g_s, buf, sz, t); VP_CANARY(); }
+void h_lmq_resize(void) { nni_lmq *lmq; size_t cap; VP_HAVOC_GHOSTS(); (void) nni_lmq_resize(lmq, cap); VP_CANARY(); }
+/* keeps the body-less second contract's symbol in the binary (never called) */
+void vp_push_refs(void) { (void) vp_push_lmq_resize(NULL, 0); }
